@@ -1,4 +1,5 @@
 from .common import run_property
+from symg import sharecheck
 
 TABLE = [dict(h="share_rt_%s" % n, fn="bytes::{vec_u128_from_bytes, subtract_vectors_u128, add_vectors_u128, vec_to_bytes} as composed by typed_value::generalized_subtract / generalized_add",
               what="type %s: for every secret and every pair of draws, v0 + v1 + (v - v0 - v1) = v byte for byte" % n, tier=t)
@@ -17,6 +18,7 @@ if __name__ == "__main__":
                  bounds=dict(leaves="one scalar / 2-element array / bit[3] leaf per harness; all secrets, all draws"),
                  outside=["the container recursion of typed_value::{generalized_subtract, generalized_add} (tuples/vectors/named tuples) and the walk of {secret_share, shard_to_shares, secret_share_reveal, get_local_shares_for_each_party}, ReplicatedShares and mpc::utils::share_vector "
                           "(nested Arc-based Types are out of CBMC's reach; scalar leaves ARE harnessed through the real functions): by reading, the recursion applies the leaf case to every leaf and places shares i, i+1 and an independent PRNG draw in slot i+2; this placement is NOT solver-checked",
-                          "the distribution of the draws themselves is PRNG's contract (C15)", "ciphercore_split_parties (file I/O)"],
+                          "supporting family (SAMPLED): the real TypedValue / ReplicatedShares / share_vector functions are run natively on typed values of all 11 scalar types, ragged bit arrays and nested containers under several seeds; reconstruction and the documented per-party layout are checked on the results (symg/sharecheck.py)", "the distribution of the draws themselves is PRNG's contract (C15)", "ciphercore_split_parties (file I/O)"],
                  assumptions=["PRNG::get_random_value returns an arbitrary valid value of the requested type (kani::any bytes, unused bits flushed - the contract C15 establishes), so 'for every seed' becomes 'for every draw'"],
+                 extra=lambda chk: sharecheck.run(chk),
                  explanation="Kani proves reconstruction and the bijection argument for uniformity at the arithmetic leaf that the sharing code applies to every scalar/array leaf, for every scalar width")
